@@ -405,8 +405,10 @@ Definition obs_all (h : heap) (v : vars) (rc : Z) : list Z :=
   rc :: obs_coll h (vx v) ++ [-8] ++ obs_coll h (vy v) ++ [-8] ++ obs_coll h (vz v)
      ++ [-8] ++ obs_share h v.
 
-Definition digest_mod : Z := 2147483629.
-Definition digest_step (acc z : Z) : Z := (acc * 1000003 + z + 1000) mod digest_mod.
+(* multiplicative hash modulo 2^31 (odd multiplier as the first factor: Z.mul
+   recurses on it; the mask is a land, both cheap under vm_compute) *)
+Definition digest_mask : Z := 2147483647.
+Definition digest_step (acc z : Z) : Z := Z.land (65599 * acc + z + 1000) digest_mask.
 Definition digest (l : list Z) : Z := fold_left digest_step l 17.
 
 Definition ob (k : Z) : obj := mkobj k k CBase.
